@@ -70,16 +70,24 @@ Definition reaction (p r : Z) : Z :=
   else RIgnore.   (* HandleFinish: result discarded *)
 
 (* ---- what the client sees ---- *)
-Record reply := mkReply { r_status : Z; r_body : list Z; r_loc : list Z; r_xfake : Z; r_xmod : Z }.
-Definition no_reply : reply := mkReply 0 [] [] 0 0.
+Record reply := mkReply { r_status : Z; r_body : list Z; r_loc : list Z; r_xfake : Z; r_xmod : Z; r_hdrs : list (list Z) }.
+(* r_hdrs: the Set-Cookie and X-Verif-A fields of the reply ("Key: value"), keys in that order, values in wire order *)
+Definition no_reply : reply := mkReply 0 [] [] 0 0 [].
 (* response.finishRequest writes "200 OK" with an empty body when the handler wrote nothing *)
-Definition default_reply : reply := mkReply 200 [] [] 0 0.
+Definition default_reply : reply := mkReply 200 [] [] 0 0 [].
 (* bfe_basic.CreateInternalSrvErrResp *)
-Definition internal_500 : reply := mkReply 500 [] [] 0 0.
-Definition backend_reply (bst : Z) : reply := mkReply bst [98; 107] [] 1 0.      (* body "bk" *)
+Definition internal_500 : reply := mkReply 500 [] [] 0 0 [].
+Definition backend_reply (bst : Z) : reply := mkReply bst [98; 107] [] 1 0 [].      (* body "bk" *)
+
+(* extra header fields the scripted module attaches to a Redirect (req.Redirect.Header) / Response verdict, by variant:
+   1: Set-Cookie: a=1, Set-Cookie: b=2      2: X-Verif-A: x, Set-Cookie: c=3, X-Verif-A: y   (as observed: Set-Cookie first) *)
+Definition extra_hdrs (k : Z) : list (list Z) :=
+  if k =? 1 then [[83;101;116;45;67;111;111;107;105;101;58;32;97;61;49]; [83;101;116;45;67;111;111;107;105;101;58;32;98;61;50]]
+  else if k =? 2 then [[83;101;116;45;67;111;111;107;105;101;58;32;99;61;51]; [88;45;86;101;114;105;102;45;65;58;32;120]; [88;45;86;101;114;105;102;45;65;58;32;121]]
+  else [].
 
 Definition resp_status (k : Z) : Z := if k =? 0 then 403 else if k =? 1 then 404 else 200.
-Definition mod_reply (k : Z) : reply := mkReply (resp_status k) [118; 48 + k] [] 0 1.   (* body "v<k>" *)
+Definition mod_reply (k : Z) : reply := mkReply (resp_status k) [118; 48 + k] [] 0 1 (extra_hdrs k).   (* body "v<k>" *)
 
 Definition redir_code (k : Z) : Z := if k =? 0 then 301 else if k =? 1 then 302 else 307.
 (* "http://r<k>.example/x" *)
@@ -93,7 +101,7 @@ Definition status_text (code : Z) : list Z :=
 Definition redir_reply (k : Z) : reply :=
   mkReply (redir_code k)
           ([60;97;32;104;114;101;102;61;34] ++ redir_url k ++ [34;62] ++ status_text (redir_code k) ++ [60;47;97;62;46;10;10])
-          (redir_url k) 0 0.
+          (redir_url k) 0 0 (extra_hdrs k).
 
 (* ---- one request through ReverseProxy.ServeHTTP + FinishReq ----
    chains: function from point to the padded chain.  Result: calls (point, handler codes that ran),
